@@ -216,7 +216,7 @@ func c17Batches(c *Ctx) {
 	startOK := false
 	for _, e := range iPhi.Edges {
 		if k0, isK := e.(*ssa.Const); isK {
-			if k0.Int64() == 0 {
+			if constInt64(k0) == 0 {
 				startOK = true
 			}
 			continue
